@@ -49,6 +49,9 @@ pub struct Case {
     /// harmless hooks (returning Ok) of every kind are installed on the pool
     #[serde(default)]
     pub hooks: bool,
+    /// the pool has a (generous) recycle timeout and a runtime
+    #[serde(default)]
+    pub recycle_timeout: bool,
 }
 
 // ---------------------------------------------------------------- scripted r2d2 manager
@@ -299,6 +302,9 @@ async fn interp(case: &Case, gates: Gates, v: &mut Verdict) {
             let mgr = deadpool_sqlite::Manager::from_config(&cfg, Runtime::Tokio1);
             match {
                 let mut b = deadpool_sqlite::Pool::builder(mgr).max_size(max);
+                if case.recycle_timeout {
+                    b = b.runtime(Runtime::Tokio1).recycle_timeout(Some(Duration::from_secs(30)));
+                }
                 if case.hooks {
                     b = b
                         .post_create(deadpool::managed::Hook::sync_fn(|_, _| Ok(())))
@@ -315,6 +321,9 @@ async fn interp(case: &Case, gates: Gates, v: &mut Verdict) {
             let mgr = deadpool_r2d2::Manager::new(SM { state: sstate.clone() }, Runtime::Tokio1);
             match {
                 let mut b = deadpool_r2d2::Pool::builder(mgr).max_size(max);
+                if case.recycle_timeout {
+                    b = b.runtime(Runtime::Tokio1).recycle_timeout(Some(Duration::from_secs(30)));
+                }
                 if case.hooks {
                     b = b
                         .post_create(deadpool::managed::Hook::sync_fn(|_, _| Ok(())))
@@ -348,6 +357,9 @@ async fn interp(case: &Case, gates: Gates, v: &mut Verdict) {
             let mgr = deadpool_diesel::sqlite::Manager::from_config(":memory:", Runtime::Tokio1, ManagerConfig { recycling_method: method });
             match {
                 let mut b = deadpool_diesel::sqlite::Pool::builder(mgr).max_size(max);
+                if case.recycle_timeout {
+                    b = b.runtime(Runtime::Tokio1).recycle_timeout(Some(Duration::from_secs(30)));
+                }
                 if case.hooks {
                     b = b
                         .post_create(deadpool::managed::Hook::sync_fn(|_, _| Ok(())))
@@ -637,7 +649,8 @@ pub fn case(thorough: bool) -> BoxedStrategy<Case> {
         1u8..=3,
         prop::collection::vec(step, 1..=maxlen),
         prop::bool::weighted(0.3),
+        prop::bool::weighted(0.3),
     )
-        .prop_map(|(backend, max_size, steps, hooks)| Case { backend, max_size, steps, hooks })
+        .prop_map(|(backend, max_size, steps, hooks, recycle_timeout)| Case { backend, max_size, steps, hooks, recycle_timeout })
         .boxed()
 }
